@@ -520,6 +520,7 @@ type fres struct {
 	oc  outcome
 	msg string
 	ob  obsv
+	raw any
 }
 
 func (f fres) term() string {
@@ -566,6 +567,15 @@ func facadeCall(f func() any, collOf func(any) int) fres {
 func sortedCopy(xs []string) []string {
 	out := append([]string(nil), xs...)
 	sort.Strings(out)
+	return out
+}
+func dedupe(xs []string) []string {
+	var out []string
+	for i, x := range xs {
+		if i == 0 || x != xs[i-1] {
+			out = append(out, x)
+		}
+	}
 	return out
 }
 func sameStrings(a, b []string) bool {
@@ -680,6 +690,7 @@ func parseSource(text string) (fres, string) {
 		return fres{oc: ocPanic, msg: "nil"}, "PPanic"
 	}
 	r.ob = observe(x, 0)
+	r.raw = x
 	return r, "(PColl " + encVal(x) + ")"
 }
 
@@ -781,6 +792,9 @@ func predicateSource(m, p fres, asSet bool) string {
 	if asSet || m.ob.unordered || p.ob.unordered {
 		a, b = sortedCopy(a), sortedCopy(b)
 	}
+	if asSet { // a set built from the source of another kind of sequence keeps one of each value
+		a, b = dedupe(a), dedupe(b)
+	}
 	if sameStrings(a, b) {
 		return "ok"
 	}
@@ -812,6 +826,14 @@ func runSeqCell(o *seqOps, cell seqCell, n int, npos int, r *rng, malformed int)
 	var collArg, collCls any
 	var srcText string
 	collID := 0
+	var dataOrder []any
+	boxed := func(arr reflect.Value) []any {
+		out := make([]any, arr.Len())
+		for i := range out {
+			out[i] = arr.Index(i).Interface()
+		}
+		return out
+	}
 	addSlice := func(vs []any) {
 		s := o.slice(vs)
 		args = append(args, s)
@@ -826,6 +848,7 @@ func runSeqCell(o *seqOps, cell seqCell, n int, npos int, r *rng, malformed int)
 		for i := range items {
 			items[i] = encVal(arr.Index(i).Interface())
 		}
+		dataOrder = boxed(arr)
 		args = append(args, s)
 		encs = append(encs, "(ASeq K"+kind+" "+encList(items)+")")
 		lits = append(lits, kind+"["+o.name+"]{"+goLits(vs)+"}")
@@ -839,6 +862,11 @@ func runSeqCell(o *seqOps, cell seqCell, n int, npos int, r *rng, malformed int)
 		srcText = sourceText(items, false, kind, r.chance(1, 5))
 		p, enc := parseSource(srcText)
 		c.parsed = &p
+		if p.oc == ocRet && p.raw != nil {
+			if m := reflect.ValueOf(p.raw).MethodByName("AsArray"); m.IsValid() {
+				dataOrder = boxed(m.Call(nil)[0])
+			}
+		}
 		args = append(args, srcText)
 		encs = append(encs, "(AString "+encBytes(srcText)+" "+enc+")")
 		lits = append(lits, strconv.Quote(srcText))
@@ -961,8 +989,12 @@ func runSeqCell(o *seqOps, cell seqCell, n int, npos int, r *rng, malformed int)
 	c.call = fmt.Sprintf("%s[%s](%s)", cell.kind, o.name, strings.Join(lits, ", "))
 	c.mod = facadeCall(func() any { return o.module(cell.kind, args) }, func(x any) int { return o.collID(x, collArg) })
 	if classForm != "" && !(cell.kind == "Array" && classForm == "none") {
+		clsVals := vals
+		if classForm == "coll+data" && dataOrder != nil {
+			clsVals = dataOrder // "the same data": the items in the order in which the data argument yields them
+		}
 		res := facadeCall(func() any {
-			return o.class(cell.kind, classForm, cdc.Notation().Make(), classData, uint(n), collCls, vals)
+			return o.class(cell.kind, classForm, cdc.Notation().Make(), classData, uint(n), collCls, clsVals)
 		}, func(x any) int { return o.collID(x, collCls) })
 		c.cls = &res
 		c.predClass = predicateClass(c.mod, res, false)
@@ -1247,7 +1279,7 @@ func genFacade(prop string, seed uint64, tier, outDir string, count int) error {
 	nviol := 0
 	// strata: every (kind, form) cell in turn; types, sizes and notation positions rotate with
 	// random phases so that every seed visits another part of the cross product
-	ncells := len(seqCells) + len(pairCells) + 3
+	ncells := len(seqCells) + len(pairCells) + 10
 	phT, phS, phN := r.intn(7), r.intn(len(facadeSizes)), r.intn(3)
 	phK := r.intn(49)
 	for i := 0; i < count; i++ {
